@@ -24,6 +24,11 @@ CLAIMS = {
    design_ref="DESIGN.md section 5 C15, section 8",
    note=COMMON_NOTE + "Daemon-level timing (a pass starts only when due, ALRM makes everything due, Z handled as D when dying) is tied textually (Tie_C15.v) and by the daemon histories of C03/C04 where registered; the virtual-clock histories are not part of this check.",
    technique="Coq proof (loop invariant for squareroot, hole invariants for the heap sift loops, induction over operation sequences) + extracted-model differential tie + constants translator"),
+ "C18": dict(category="proof",
+   text="Theorems for every request / command / report stream: qmail-clean answers each request with exactly one status byte, changes nothing for a request it rejects, and unlinks only intd/N, mess/(N mod split)/N or todo/N for the all-digit N of a foop/ or todo/ request (N = decimal value mod 2^64, stated); the spawners produce exactly one action carrying the delivery number per complete command and open only digit/slash names starting with a digit, < 100 bytes, spawning only for a regular file owned by the queue user; qmail-send's report parser never stores more than REPORTMAX bytes, ignores out-of-range/unused delivery numbers and finishes a recipient only on a well-formed K or D (or dying Z). Tied on every run to the real qmail-clean (per-request unlink calls and status bytes under the interposer, real and injected unlink errors), the real qmail-rspawn (reports per command, files opened) and the real del_dochan() (function harness, real mark and bounce files).",
+   design_ref="DESIGN.md section 5 C18, section 8",
+   note=COMMON_NOTE + "Known finding clean:id-wraps-2^64 (digit strings >= 2^64 act on the number modulo 2^64) is listed in known_findings.json. qmail-lspawn shares spawn.c; its user lookup is C11. cleanuppid() (stale pid files) is outside this model.",
+   technique="Coq proof (case analysis of the validation functions, induction over the report stream) + extracted-model differential tie under an LD_PRELOAD interposer"),
 }
 
 REASON_PENDING = "not yet claimed: model/correspondence for this property is still being built (DESIGN.md section 7); no check is registered for it"
